@@ -184,6 +184,7 @@ func Guard(fn func()) (panicked bool, class, site, detail string) {
 			if d, ok := r.(*simrt.Diverged); ok {
 				class = "diverged:" + d.Kind
 				detail = d.Error()
+				site = HotLibFrame(stack)
 				return
 			}
 			msg := fmt.Sprint(r)
@@ -199,6 +200,8 @@ func Guard(fn func()) (panicked bool, class, site, detail string) {
 func PanicClass(msg string) string {
 	m := strings.ToLower(msg)
 	switch {
+	case strings.Contains(m, "simulated failure"):
+		return "generator-error"
 	case strings.Contains(m, "index out of range"):
 		return "index-out-of-range"
 	case strings.Contains(m, "nil pointer"):
@@ -217,6 +220,25 @@ func PanicClass(msg string) string {
 		f = f[:4]
 	}
 	return strings.Join(f, "-")
+}
+
+// HotLibFrame finds the library function that occurs most often in a stack
+// dump (the recursing one, for a divergence).
+func HotLibFrame(stack string) string {
+	cnt := map[string]int{}
+	best, bestN := "?", 0
+	for _, ln := range strings.Split(stack, "\n") {
+		ln = strings.TrimSpace(ln)
+		if !strings.HasPrefix(ln, "github.com/hashicorp/go-argmapper") || strings.Contains(ln, "verifshim") {
+			continue
+		}
+		f := TopLibFrame(ln)
+		cnt[f]++
+		if cnt[f] > bestN || (cnt[f] == bestN && f < best) {
+			best, bestN = f, cnt[f]
+		}
+	}
+	return best
 }
 
 // TopLibFrame finds the innermost frame inside the library in a stack dump.
